@@ -135,6 +135,9 @@ pub enum Release {
     Drop,
     Unlock,
     Forget,
+    /// the guard is stored in a user value whose destructor passes it to `unlock` (runs on
+    /// return and, if the section panics, during the unwind)
+    UnlockInDrop,
 }
 
 #[derive(Clone, Copy, PartialEq, Eq, Debug, Serialize, Deserialize)]
